@@ -117,9 +117,12 @@ var persistOptNames = []string{"beforeCtx", "before", "errh", "timeout", "obs", 
 // persistCase builds a bus from the option order and runs a publish pattern; it returns the trace segment.
 func persistCase(order []string, kinds []string, storeKind, dir string) ([][]byte, error) {
 	var lines [][]byte
+	var lmu sync.Mutex
 	emit := func(m map[string]any) {
 		b, _ := json.Marshal(m)
+		lmu.Lock()
 		lines = append(lines, b)
+		lmu.Unlock()
 	}
 	has := map[string]bool{}
 	for _, o := range order {
@@ -174,7 +177,7 @@ func persistCase(order []string, kinds []string, storeKind, dir string) ([][]byt
 		}
 	}
 	bus := eb.New(opts...)
-	const nh = 2
+	const nh = 3 // two synchronous handlers and one asynchronous per event type
 	count := func() (int, bool) { // records in the store, and whether the current publish's record is there and right
 		if inner == nil {
 			return 0, false
@@ -198,7 +201,7 @@ func persistCase(order []string, kinds []string, storeKind, dir string) ([][]byt
 		}
 		return len(evs), found
 	}
-	for i := 0; i < nh; i++ {
+	for i := 0; i < nh-1; i++ {
 		eb.Subscribe(bus, func(e PEvent) {
 			n, saw := count()
 			emit(map[string]any{"e": "handler", "p": e.P, "saw": saw, "n": n})
@@ -212,6 +215,18 @@ func persistCase(order []string, kinds []string, storeKind, dir string) ([][]byt
 			emit(map[string]any{"e": "handler", "p": e.P, "saw": saw, "n": n})
 		})
 	}
+	eb.Subscribe(bus, func(e PEvent) {
+		n, saw := count()
+		emit(map[string]any{"e": "handler", "p": e.P, "saw": saw, "n": n})
+	}, eb.Async())
+	eb.Subscribe(bus, func(e PNamed) {
+		n, saw := count()
+		emit(map[string]any{"e": "handler", "p": e.P, "saw": saw, "n": n})
+	}, eb.Async())
+	eb.Subscribe(bus, func(e PBad) {
+		n, saw := count()
+		emit(map[string]any{"e": "handler", "p": e.P, "saw": saw, "n": n})
+	}, eb.Async())
 	emit(map[string]any{"e": "new", "opts": order, "persistent": has["store"], "errh": has["errh"], "obs": has["obs"], "userhook": has["beforeCtx"], "nh": nh})
 	for i, k := range kinds {
 		cur = pMeta{p: i + 1, kind: k}
@@ -224,6 +239,7 @@ func persistCase(order []string, kinds []string, storeKind, dir string) ([][]byt
 		} else {
 			eb.PublishContext(bus, ctx, PEvent{P: cur.p, Note: "n"})
 		}
+		bus.Wait() // the asynchronous handler of this publish has run when the return is recorded
 		n, saw := count()
 		emit(map[string]any{"e": "pubret", "p": cur.p, "n": n, "recok": !has["store"] || k != "ok" || saw})
 	}
